@@ -843,7 +843,23 @@ impl Engine for ThEngine {
         ctx.t(fcb.pieces);
         ctx.state(((cfg.mode as u64) << 8) | ((damaged as u64) << 4) | (frag.items.len().min(15) as u64));
         if cfg.damage == 4 {
-            // hard read error: the run must end with the callback error (or earlier, identically); no comparison beyond "no panic"
+            // hard read error at one callback call: the reader may stop there, but what it produced before is
+            // exactly the beginning of what the undisturbed stream gives, and it stops with the callback's error
+            // (or, if that call was never made, exactly like the undisturbed read)
+            let is_prefix = frag.items.len() <= reference.items.len() && frag.items[..] == reference.items[..frag.items.len()];
+            let end_ok = match &frag.end {
+                End::Err(e) if e == "callback-error" || e == "header: callback-error" => true,
+                other => *other == reference.end && frag.items.len() == reference.items.len(),
+            };
+            if !is_prefix || !end_ok {
+                let at = frag.items.iter().zip(reference.items.iter()).position(|(a, b)| a != b);
+                return Some(v(
+                    "depends-on-fragmentation",
+                    &[("what", if is_prefix { "end" } else { "items" }), ("damaged", "read-error")],
+                    format!("with one failing read call the reader produced {} items ending {:?}; the undisturbed stream gives {} items ending {:?}; first difference at item {:?}", frag.items.len(), frag.end, reference.items.len(), reference.end, at),
+                ));
+            }
+            ctx.count("probe_read_error_prefix_checked");
             return None;
         }
         if cfg.via_file != 0 && bytes.len() <= 100_000 {
